@@ -83,6 +83,21 @@ Definition spec_block_comment (v : list Z) : bool :=
   | _ => false
   end.
 
+(* the text of a line comment after the two slashes: bytes other than backslash, newline, NUL, or a backslash
+   followed by any byte but a backslash (backslash-newline continues the comment on the next line, as in C;
+   backslash-backslash is left out: the tokenizer pairs the two, C pairs the second with what follows) *)
+Fixpoint line_ok (b : list Z) : bool :=
+  match b with
+  | [] => true
+  | c :: r =>
+    if c =? 92 then
+      match r with
+      | [] => false
+      | c1 :: r2 => negb (c1 =? 0) && negb (c1 =? 92) && line_ok r2
+      end
+    else negb (c =? 0) && negb (c =? 10) && line_ok r
+  end.
+
 (* numeric literal: a non-empty spelling without sign that primitive::load consumes completely *)
 Definition spec_prim (v : list Z) : bool :=
   nonzero v &&
